@@ -4,6 +4,7 @@ import Mercure.Model.SubList
 import Mercure.Model.Subscriber
 import Mercure.Model.Publish
 import Mercure.Model.Subscribe
+import Mercure.Model.Hub
 import Mercure.Generated.Facts
 import Std.Data.HashMap
 /-
@@ -48,6 +49,7 @@ structure DSt where
   sf     : SkipFilter Nat := SkipFilter.new 0
   sfSubs : Std.HashMap Nat SubSpec := {}
   sfIds  : Std.HashMap Nat Nat := {}     -- harness label ↦ skipfilter id
+  hub    : HubSt := { cfg := {}, kind := .local }
 
 def sfTest (st : DSt) (label : Nat) (key : Str) : Bool :=
   match st.sfSubs.get? label with
@@ -82,8 +84,66 @@ def showAuth : Except AuthErr (Option Claims) → String
   | .ok none => "anon"
   | .ok (some c) => "ok:" ++ hex c.mercure.payload
 
+def showUpd (u : Update) : String :=
+  s!"{hex u.id}/{hex u.type}/{u.retry}/{hex (normaliseEOL u.data)}"
+
+def showConn (c : Conn) : String :=
+  s!"{c.label}:{showBool c.done}:[{" ".intercalate (c.written.map showUpd)}]"
+
+def showObs (h : HubSt) : String :=
+  s!"conns={";".intercalate (h.conns.map showConn)} index={" ".intercalate (h.index.map toString)} last={hex h.lastEventID} metrics={h.metrics.total},{h.metrics.gauge},{h.metrics.updates}"
+
+def showDoc (d : Subscription) : String :=
+  s!"{hex d.id},{hex d.subscriber},{hex d.topic},{showBool d.active},{hex d.payload}"
+
+def showApi (r : ApiResp) : String :=
+  s!"{r.status} last={hex r.lastEventID} docs={";".intercalate (r.docs.map showDoc)}"
+
 def step (st : DSt) (line : String) : DSt × String :=
+  let M := matchSpec st.oracle.toT
   match line.splitOn "\t" with
+  | ["hub.new", kind, size] =>
+    match size.toNat? with
+    | some sz => ({ st with hub := { cfg := st.cfg, kind := if kind == "bolt" then .bolt else .local, size := sz,
+                                     cap := Facts.outBufferLength } }, "ok")
+    | none => (st, "bad-op")
+  | ["hub.pub", isPost, hdrs, query, cookie, origin, referer, refOrigin, formOk, topics, retry, priv, data, id, type] =>
+    match parseAuthReq isPost hdrs query cookie origin referer refOrigin, unhexList topics, unhex retry, unhex data, unhex id, unhex type with
+    | some a, some topics, some retry, some data, some id, some type =>
+      let r : PubReq := { auth := a, formOk := bool formOk, topics := topics, retryStr := retry, priv := bool priv,
+                          data := data, id := id, type := type }
+      let (h', resp) := st.hub.publish M (st.tok true) r
+      ({ st with hub := h' }, s!"{resp.status} {hex resp.body}")
+    | _, _, _, _, _, _ => (st, "bad-op")
+  | ["hub.sub", label, isPost, hdrs, query, cookie, origin, referer, refOrigin, topics, lh, lq, ll] =>
+    match label.toNat?, parseAuthReq isPost hdrs query cookie origin referer refOrigin, unhexList topics, unhex lh, unhex lq, optList ll with
+    | some l, some a, some topics, some lh, some lq, some ll =>
+      let (h', resp) := st.hub.connect M (st.tok false) l { auth := a, topics := topics, leid := { header := lh, query := lq, legacy := ll } }
+      ({ st with hub := h' }, s!"{resp.status} {hex resp.body} leid={match resp.respLEID with | some x => hex x | none => "~"}")
+    | _, _, _, _, _, _ => (st, "bad-op")
+  | ["hub.disc", label] =>
+    match label.toNat? with
+    | some l => ({ st with hub := st.hub.clientClose M l }, "ok")
+    | none => (st, "bad-op")
+  | ["hub.stall", label, b] =>
+    match label.toNat? with
+    | some l => ({ st with hub := st.hub.setStalled M l (bool b) }, "ok")
+    | none => (st, "bad-op")
+  | ["hub.failnext", label] =>
+    match label.toNat? with
+    | some l => ({ st with hub := st.hub.failNextWrite l }, "ok")
+    | none => (st, "bad-op")
+  | ["hub.close"] => ({ st with hub := st.hub.close M }, "ok")
+  | ["hub.restart"] => ({ st with hub := st.hub.restart M }, "ok")
+  | ["hub.obs"] => (st, showObs st.hub)
+  | ["hub.api.list", isPost, hdrs, query, cookie, origin, referer, refOrigin, url, topic, inm] =>
+    match parseAuthReq isPost hdrs query cookie origin referer refOrigin, unhex url, unhex topic, unhex inm with
+    | some a, some url, some topic, some inm => (st, showApi (st.hub.apiList M (st.tok false) a url topic inm))
+    | _, _, _, _ => (st, "bad-op")
+  | ["hub.api.get", isPost, hdrs, query, cookie, origin, referer, refOrigin, url, topic, sub, inm] =>
+    match parseAuthReq isPost hdrs query cookie origin referer refOrigin, unhex url, unhex topic, unhex sub, unhex inm with
+    | some a, some url, some topic, some sub, some inm => (st, showApi (st.hub.apiGet M (st.tok false) a url topic sub inm))
+    | _, _, _, _, _ => (st, "bad-op")
   | ["hub.cfg", pubAlg, subKey, subAlg, anon, origins, compat7, subs] =>
     match unhex pubAlg, unhex subAlg, unhexList origins with
     | some pa, some sa, some os =>
